@@ -244,6 +244,7 @@ func (c *Client) Lookup(path, vers string) (lines []string, err error) {
 		data []byte
 		err  error
 	}
+	vhook(c, "claim", file)
 	result := c.record.Do(file, func() interface{} {
 		// Try the on-disk cache, or else get from web.
 		writeCache := false
@@ -385,6 +386,7 @@ func (c *Client) mergeLatestMem(msg []byte) (when int, err error) {
 	latest := c.latest
 	latestMsg := c.latestMsg
 	c.latestMu.Unlock()
+	vhook(c, "merge-snapshot", latest.N, tree.N)
 
 	for {
 		// If the tree head looks old, check that it is on our timeline.
@@ -405,6 +407,7 @@ func (c *Client) mergeLatestMem(msg []byte) (when int, err error) {
 
 		// Install our msg if possible.
 		// Otherwise we will go around again.
+		vhook(c, "install", tree.N)
 		c.latestMu.Lock()
 		installed := false
 		if c.latest == latest {
@@ -416,6 +419,7 @@ func (c *Client) mergeLatestMem(msg []byte) (when int, err error) {
 			latestMsg = c.latestMsg
 		}
 		c.latestMu.Unlock()
+		vhook(c, "installed", installed, tree.N)
 
 		if installed {
 			return msgFuture, nil
@@ -480,6 +484,7 @@ func (c *Client) checkRecord(id int64, data []byte) error {
 	c.latestMu.Lock()
 	latest := c.latest
 	c.latestMu.Unlock()
+	vhook(c, "check-snapshot", id, latest.N)
 
 	if id >= latest.N {
 		return fmt.Errorf("cannot validate record %d in tree of size %d", id, latest.N)
